@@ -87,7 +87,7 @@ func registerIntrinsics(e *Engine) {
 	})
 	r("zz:zzAssert", func(p *Path, caller *frame, _ *ssa.Function, args []Value, site ssa.CallInstruction) Value {
 		label, _ := args[1].(StrV)
-		if !p.fork(args[0].(*term.T)) {
+		if !p.forkLikely(args[0].(*term.T)) {
 			pos := ""
 			if site != nil {
 				pos = posStr(p.E.Fset, site.Pos())
@@ -126,6 +126,35 @@ func registerIntrinsics(e *Engine) {
 			res = p.F.Or(res, c)
 		}
 		return res
+	})
+	r("zz:zzBytesEq", func(p *Path, _ *frame, _ *ssa.Function, args []Value, _ ssa.CallInstruction) Value {
+		a, b := args[0].(*SliceV), args[1].(*SliceV)
+		// lengths may be symbolic: compare under each feasible pair of lengths
+		la := int(p.concretize(a.Len, "zzBytesEq len(a)"))
+		lb := int(p.concretize(b.Len, "zzBytesEq len(b)"))
+		if la != lb {
+			return p.F.False()
+		}
+		if la > 0 {
+			if !a.Off.IsConst() {
+				p.concretize(a.Off, "zzBytesEq off(a)")
+			}
+			if !b.Off.IsConst() {
+				p.concretize(b.Off, "zzBytesEq off(b)")
+			}
+		}
+		ea, eb := p.sliceElems(a, la), p.sliceElems(b, lb)
+		res := p.F.True()
+		for i := range ea {
+			res = p.F.And(res, p.F.Eq(ea[i].(*term.T), eb[i].(*term.T)))
+		}
+		return res
+	})
+	r("zz:zzConcretize", func(p *Path, _ *frame, _ *ssa.Function, args []Value, _ ssa.CallInstruction) Value {
+		return p.F.BVConst64(p.concretize(args[0].(*term.T), "zzConcretize"), 64)
+	})
+	r("zz:zzIte", func(p *Path, _ *frame, _ *ssa.Function, args []Value, _ ssa.CallInstruction) Value {
+		return p.F.Ite(args[0].(*term.T), args[1].(*term.T), args[2].(*term.T))
 	})
 	r("zz:zzImplies", func(p *Path, _ *frame, _ *ssa.Function, args []Value, _ ssa.CallInstruction) Value {
 		return p.F.Implies(args[0].(*term.T), args[1].(*term.T))
@@ -287,10 +316,10 @@ func registerIntrinsics(e *Engine) {
 	r("math/bits.Div64", func(p *Path, _ *frame, _ *ssa.Function, a []Value, _ ssa.CallInstruction) Value {
 		F := p.F
 		hi, lo, y := a[0].(*term.T), a[1].(*term.T), a[2].(*term.T)
-		if !p.fork(F.Ne(y, F.BVConst64(0, 64))) {
+		if !p.forkLikely(F.Ne(y, F.BVConst64(0, 64))) {
 			p.gopanic("runtime error: integer divide by zero")
 		}
-		if !p.fork(F.BvUlt(hi, y)) {
+		if !p.forkLikely(F.BvUlt(hi, y)) {
 			p.gopanic("runtime error: integer overflow")
 		}
 		n := F.Concat(hi, lo)
